@@ -12,7 +12,8 @@ package inspect
 // unwind, path, aggregate, and mark references such as has(eq("$x.w", ..)) - are not part
 // of the analysis: KNOWN FINDING (clause haskey).
 //@ func PipelineStepOutputs
-//@   property C02
+//@   vars stmts steps asMap onLast out i gs sel s a ok fields f n a ok x ok
+//@   property C02 C01
 //@   option prelude=opt
 //@   option load=gripql,jsonpath,util/protoutil
 //@   modifies MapD.Str MapV.Str.Slice MapV.Str.Str MapN SH.Str alloc
@@ -39,7 +40,8 @@ package inspect
 
 // PipelineSteps labels every statement with a step id (one per statement).
 //@ func PipelineSteps
-//@   property C02
+//@   vars stmts out curState gs
+//@   property C02 C01
 //@   option prelude=opt
 //@   option load=gripql
 //@   pure
@@ -49,7 +51,8 @@ package inspect
 //@   ensures len: len(result) == len(stmts)
 
 //@ func PipelineAsSteps
-//@   property C02
+//@   vars stmts out steps i gs stmt
+//@   property C02 C01
 //@   option load=gripql
 //@   pure
 //@   fresh
